@@ -24,27 +24,42 @@ PosIn(p, x) == CHOOSE i \in 1..K : p[i] = x
 \* opf    : EPUB: package document in the root, in OEBPS/, in OPS/pkg/
 \* ver    : EPUB 2 (NCX) or 3 (nav document)
 \* extra  : EPUB: a manifest item that is not in the spine
+\* missing: 0, or the DECLARED POSITION whose part is absent from the archive (declared but
+\*          not readable: no page, not counted, nothing shown in its place)
+\* decoy "conv": an undeclared member with the CONVENTIONAL name (xl/worksheets/sheet<k>.xml,
+\*          ppt/slides/slide<k>.xml) numbered by the missing position, in packages whose real
+\*          parts live elsewhere
 OProf(pa, tg, de, ex, inf) == [paths |-> pa, tgt |-> tg, decoy |-> de, extras |-> ex, infra |-> inf,
-                               enc |-> "none", opf |-> "root", ver |-> 0, extra |-> FALSE]
+                               enc |-> "none", opf |-> "root", ver |-> 0, extra |-> FALSE, missing |-> 0]
 EProf(pa, en, op, ve, de, xt, ex, inf) == [paths |-> pa, tgt |-> "rel", decoy |-> de, extras |-> ex, infra |-> inf,
-                               enc |-> en, opf |-> op, ver |-> ve, extra |-> xt]
+                               enc |-> en, opf |-> op, ver |-> ve, extra |-> xt, missing |-> 0]
+Miss(pr, m) == [pr EXCEPT !.missing = m]
 
 OProfiles == { OProf("std", "rel", "none", TRUE, TRUE),      OProf("std", "abs", "last", FALSE, FALSE),
                OProf("nested", "rel", "first", FALSE, TRUE), OProf("renamed", "rel", "none", TRUE, FALSE),
-               OProf("renamed", "abs", "last", FALSE, TRUE), OProf("nested", "abs", "none", TRUE, FALSE) }
+               OProf("renamed", "abs", "last", FALSE, TRUE), OProf("nested", "abs", "none", TRUE, FALSE),
+               \* one declared part absent
+               Miss(OProf("std", "rel", "none", TRUE, TRUE), 1),     Miss(OProf("std", "abs", "last", FALSE, FALSE), 2),
+               Miss(OProf("std", "rel", "first", FALSE, TRUE), 3),   Miss(OProf("renamed", "rel", "conv", TRUE, FALSE), 2),
+               Miss(OProf("nested", "abs", "conv", FALSE, TRUE), 1), Miss(OProf("renamed", "abs", "none", FALSE, TRUE), 3) }
 EProfiles == { EProf("std", "none", "one", 3, "none", FALSE, TRUE, TRUE),
                EProf("std", "sp20", "root", 2, "last", TRUE, FALSE, FALSE),
                EProf("nested", "plusLit", "one", 3, "none", FALSE, FALSE, TRUE),
                EProf("renamed", "plus2B", "two", 2, "first", FALSE, TRUE, FALSE),
                EProf("nested", "none", "two", 3, "last", TRUE, TRUE, FALSE),
                EProf("renamed", "plusLit", "one", 2, "none", TRUE, FALSE, TRUE),
-               EProf("std", "plus2B", "root", 3, "first", FALSE, FALSE, FALSE) }
-OWide == { OProf(pa, tg, de, ex, inf) : pa \in {"std", "nested", "renamed"}, tg \in {"rel", "abs"},
-                                         de \in {"none", "first", "last"}, ex \in BOOLEAN, inf \in BOOLEAN }
-EWide == { e \in { EProf(pa, en, op, ve, de, xt, ex, inf) :
+               EProf("std", "plus2B", "root", 3, "first", FALSE, FALSE, FALSE),
+               Miss(EProf("std", "none", "one", 3, "last", FALSE, TRUE, TRUE), 1),
+               Miss(EProf("nested", "sp20", "two", 2, "none", TRUE, FALSE, FALSE), 2),
+               Miss(EProf("renamed", "plus2B", "one", 3, "first", FALSE, FALSE, TRUE), 3) }
+OWide == { o \in { Miss(OProf(pa, tg, de, ex, inf), m) : pa \in {"std", "nested", "renamed"}, tg \in {"rel", "abs"},
+                                         de \in {"none", "first", "last", "conv"}, ex \in BOOLEAN, inf \in BOOLEAN,
+                                         m \in 0..K } :
+             (o.decoy = "conv") => (o.missing > 0 /\ o.paths # "std") }
+EWide == { e \in { Miss(EProf(pa, en, op, ve, de, xt, ex, inf), m) :
                      pa \in {"std", "nested", "renamed"}, en \in {"none", "sp20", "plusLit", "plus2B"},
                      op \in {"root", "one", "two"}, ve \in {2, 3}, de \in {"none", "first", "last"},
-                     xt \in BOOLEAN, ex \in BOOLEAN, inf \in BOOLEAN } :
+                     xt \in BOOLEAN, ex \in BOOLEAN, inf \in BOOLEAN, m \in 0..K } :
              ~(e.paths = "renamed" /\ e.opf = "root") }     \* ../text/ needs a parent directory
 ProfilesOf(f) == IF f = "epub" THEN (IF Wide THEN EWide ELSE EProfiles)
                  ELSE (IF Wide THEN OWide ELSE OProfiles)
@@ -76,15 +91,23 @@ HrefOf(f, pr, n) ==
 NameOf(f, pr, n) == ResolveWith("path", BaseOf(f, pr), HrefOf(f, pr, n))
 
 Part(f, pr, id, n, decl, rel, zip) ==
-    [id |-> id, name |-> NameOf(f, pr, n), href |-> HrefOf(f, pr, n), decl |-> decl, rel |-> rel, zip |-> zip]
+    [id |-> id, name |-> NameOf(f, pr, n), href |-> HrefOf(f, pr, n), decl |-> decl, rel |-> rel, zip |-> zip,
+     present |-> ~(decl > 0 /\ decl = pr.missing)]
+
+\* the conventional place and stem of the parts of a format
+StdProf(pr) == [pr EXCEPT !.paths = "std", !.tgt = "rel"]
+ConvDir(f, pr)  == NameOf(f, StdProf(pr), 1).dir
+ConvStem(f, pr) == StemOf(f, StdProf(pr))
 
 MkPkg(f, pr, d, r, z) ==
     LET real  == [i \in 1..K |-> Part(f, pr, i, i, PosIn(d, i), PosIn(r, i), PosIn(z, i))]
         decoy == IF pr.decoy = "none" THEN <<>>
+                 ELSE IF pr.decoy = "conv" THEN << Part(f, StdProf(pr), 90, pr.missing, 0, 0, K + 1) >>
                  ELSE IF pr.decoy = "first" THEN << Part(f, pr, 90, 0, 0, 0, 0) >>
                  ELSE << Part(f, pr, 90, K + 1, 0, 0, K + 1) >>
         extra == IF pr.extra THEN << Part(f, pr, 91, K + 2, 0, K + 1, K + 2) >> ELSE <<>>
-    IN [fmt |-> f, base |-> BaseOf(f, pr), prof |-> pr, parts |-> real \o decoy \o extra]
+    IN [fmt |-> f, base |-> BaseOf(f, pr), prof |-> pr, convdir |-> ConvDir(f, pr), convstem |-> ConvStem(f, pr),
+        parts |-> real \o decoy \o extra]
 
 MCInit ==
     /\ \E f \in Fmts : \E pr \in ProfilesOf(f) : \E d \in Perms, r \in Perms, z \in Perms :
@@ -95,7 +118,8 @@ MCSpec == MCInit /\ [][Next]_vars
 
 \* simulation: the package is drawn at random in the first step (enumerating the full
 \* product as initial states would be millions of states)
-NoPkg == [fmt |-> "none", base |-> <<>>, prof |-> OProf("std", "rel", "none", FALSE, FALSE), parts |-> <<>>]
+NoPkg == [fmt |-> "none", base |-> <<>>, prof |-> OProf("std", "rel", "none", FALSE, FALSE), convdir |-> <<>>, convstem |-> "",
+          parts |-> <<>>]
 SimInit == pkg = NoPkg /\ pages = <<>> /\ pos = 0
 SimPick ==
     /\ pkg.fmt = "none"
